@@ -291,6 +291,11 @@ pub fn build(repo: &Path, root: &Path, with_big: bool) -> Tree {
             let text = "fragment G on Hero { name friends { ...G } }\nfragment F on Hero { name }\nquery Tree { hero { ...G } heroFriends { ...F } }\n";
             fs::write(d.join("query_samenames.graphql"), text).unwrap();
             fixtures.push(Fixture { dir: name.to_string(), file: "query_samenames.graphql".into(), is_schema: false, ops: operation_names(text), big: false, deepbad: false });
+            // variables of types the schema does not declare, met in two different orders
+            for (file, text) in [("query_undeclared_a.graphql", "query UA($a: Alpha, $z: Zeta) { me { name } }\n"), ("query_undeclared_b.graphql", "query UB($z: Zeta, $a: Alpha, $m: Mood) { me { name } }\n")] {
+                fs::write(d.join(file), text).unwrap();
+                fixtures.push(Fixture { dir: name.to_string(), file: file.into(), is_schema: false, ops: operation_names(text), big: false, deepbad: false });
+            }
             // single-operation documents: the same schema name (`ID`) met first as a variable type
             // in one call and first as a response field type in another
             for (file, text) in [("query_idvar.graphql", "query ById($id: ID!, $ids: [ID!]) { thing(id: $id) { title } }\n"), ("query_idfield.graphql", "query PostIds { feed { id title } }\n")] {
